@@ -197,6 +197,10 @@ GlobPatterns ==
     {AbsP(<<"w", s1>>) : s1 \in GlobSegs} \cup {AbsP(<<"w", s1, s2>>) : s1 \in GlobSegs, s2 \in GlobSegs}
     \cup {AbsP(<<"*", s1>>) : s1 \in {"*", "a"}} \cup {AbsP(<<"*", "*", s1>>) : s1 \in {"*", "b"}}
     \cup {RelP(<<s1>>) : s1 \in GlobSegs} \cup {RelP(<<s1, s2>>) : s1 \in {"*", "a", "?"}, s2 \in {"*", "b", "a"}}
+    \* a literal last element that is no directory entry: a trailing separator, "." and ".." (after a wildcard directory part)
+    \* (not after a literal directory part: a meta-free pattern is an Lstat of the path, and avfs reads paths in
+    \* their Clean() form by the convention of C01)
+    \cup {AbsP(<<"w", s1, x>>) : s1 \in {"*", "?"}, x \in {"", ".", ".."}}
 EnumCalls ==
     {[C0 EXCEPT !.op = "glob", !.p = p] : p \in GlobPatterns}
     \cup {[C0 EXCEPT !.op = "walk", !.p = p, !.n = k, !.flag = <<a>>] : p \in {WorkP, RootP} \cup {AbsP(x) : x \in P1},
